@@ -86,11 +86,13 @@ def build(case):
         pix = M.rand_pixels(rng, 320, 200, kind)
         rgb = case["rgb"]
         M.MGE_FLAG[0] = case.get("flag", 1)
+        M.MGE_TITLE[0] = case["title"].encode("latin-1") if case.get("title") is not None else None
         try:
             data = M.enc_mge(pix, pal, rgb, False)
         finally:
             M.MGE_FLAG[0] = 1
-        return fmt, data, [], M.expected_mge(pix, pal, rgb), "mge raw %s flag%d" % ("rgb" if rgb else "cmp", case.get("flag", 1))
+            M.MGE_TITLE[0] = None
+        return fmt, data, [], M.expected_mge(pix, pal, rgb), "mge raw %s flag%d%s" % ("rgb" if rgb else "cmp", case.get("flag", 1), " title%r" % case["title"] if case.get("title") is not None else "")
     if fmt == "cm3":
         two, pat = case["two"], case["pat"]
         pix = M.rand_pixels(rng, 320, 384 if two else 192, kind)
@@ -193,6 +195,10 @@ def cases(tier, seed):
         yield c(fmt="hrs", w=32, h=4, kind="random", flatpal=fp)
         yield c(fmt="mge", rgb=(fp != "two"), kind="random", flatpal=fp)
         yield c(fmt="cm3", two=False, pat=False, kind="random", flatpal=fp)
+    # the title of an MGE picture is text the decoder only shows: semigraphics blocks, accented letters, bytes that are no
+    # valid UTF-8, an empty and a full-length title leave the picture what it is
+    for k_, title in enumerate(["\x8f\x8f CASTLE", "CH\xc2TEAU", "\xff\xfe\x80", "", "A" * 29, "caf\xe9 \x9f"]):
+        yield c(fmt="mge", rgb=(k_ % 2 == 0), kind="random", title=title)
     for kind in ("random", "alt"):
         yield c(fmt="hrs", w=32, h=4, kind=kind, highbits=True)
         yield c(fmt="mge", rgb=True, kind=kind, highbits=True)
